@@ -32,9 +32,11 @@ func VerifC11_Histories() {
 	n := 1 + verifrt.Choose(H)
 	for ev := 0; ev < n; ev++ {
 		// the published list: a non-empty subset of the pool, chosen freely
-		subset := 1 + verifrt.Choose(6)
+		var subset int
 		if verifrt.Param("fewsubsets", 0) == 1 {
 			subset = []int{1, 3, 6}[verifrt.Choose(3)]
+		} else {
+			subset = 1 + verifrt.Choose(6)
 		}
 		var serials []*big.Int
 		for i := 0; i < 3; i++ {
